@@ -170,11 +170,18 @@ func VerifyLightClientAttack(e *types.LightClientAttackEvidence, commonHeader, t
 //
 // CONTRACT: the commit has as many signatures as the validator set has validators
 func verifyAllSignatures(chainID string, lb *types.LightBlock) error {
+	// a decoded validator set may list the same validator more than once: its voting power would count, and it
+	// would be named as a byzantine validator, once per entry
+	signers := make(map[string]int, len(lb.Commit.Signatures))
 	for idx, commitSig := range lb.Commit.Signatures {
 		if commitSig.Absent() {
 			continue
 		}
 		val := lb.ValidatorSet.Validators[idx]
+		if first, ok := signers[string(val.Address)]; ok {
+			return fmt.Errorf("validator %X signed twice (#%d and #%d)", val.Address, first, idx)
+		}
+		signers[string(val.Address)] = idx
 		if !bytes.Equal(val.PubKey.Address(), val.Address) {
 			return fmt.Errorf("validator #%d has address %X but its public key has address %X",
 				idx, val.Address, val.PubKey.Address())
